@@ -1,2 +1,134 @@
-(* C07 property theorems: statements only; every proof is [exact lemma]. (in progress) *)
-From Gv Require Import lib.Bytes lib.Json C02.Model C07.Model C07.Spec.
+(* C07 property theorems: statements only; every proof is [exact lemma].
+
+   Vocabulary (C07/Model.v, C07/Spec.v):
+   [run answer root_answer kind_of F t]  the loader state after running fetch tree [t] against the
+       pointwise deterministic subgraphs ([answer fetch representation], [root_answer fetch]) under
+       the fault map [F : fetch id -> option fault] (a fetch sends at most one request per run);
+   [no_faults]                            the empty fault map;
+   [finish root s]                        the response: loader errors, then the C02 renderer on the data;
+   [fplan_wf]                              what planner + post-processor guarantee: post-processing paths by
+       fetch kind, single fetches at the root, flat non-null representation variables under an
+       `on type` condition, no type-conditioned path elements, dependencies earlier in the tree;
+   [consistent]                           the fault-free run never overwrites: after each fetch the old data is
+       contained in the new, an entity fetch saw at most one item, every merged answer is contained
+       at its target (evaluated on every generated case by the driver: coverage "consistent");
+   [loud]                                 the failure kinds of the property text (transport error, non-2xx with empty /
+       non-JSON / errors-only body, empty body, non-JSON, truncated, `NaN`, errors without data,
+       `data: null`), and the `_entities` count faults for batch fetches;
+   [sub_b a b]                            a equals b except for absent object members and nulls. *)
+From Gv Require Import lib.Bytes lib.Json C02.Model C02.Spec C07.Model C07.Spec
+     C07.ProofsErrors C07.ProofsMono C07.ProofsJson C07.ProofsExamples.
+Open Scope N_scope.
+Open Scope string_scope.
+
+(* monotone: under any set of loud faults the merged data is the fault-free data with subtrees
+   absent or null -- for every well-formed plan, pointwise subgraphs and fault map *)
+Theorem c07_monotone :
+  forall (answer : N -> bytes -> json * list json) (root_answer : N -> json * list json) (kind_of : N -> fkind)
+         (F : N -> option fault) (t : ftree),
+    (forall id k, F id = Some k -> loud (kind_of id) k = true) ->
+    fplan_wf kind_of t = true -> consistent answer root_answer kind_of t = true ->
+    sub_b (ls_data (run answer root_answer kind_of F t)) (ls_data (run answer root_answer kind_of no_faults t)) = true.
+Proof. exact monotone_proof. Qed.
+Print Assumptions c07_monotone.
+
+(* no corruption: every scalar present in the data under the faults is the fault-free scalar at
+   that location *)
+Theorem c07_unaffected_identical :
+  forall (answer : N -> bytes -> json * list json) (root_answer : N -> json * list json) (kind_of : N -> fkind)
+         (F : N -> option fault) (t : ftree),
+    (forall id k, F id = Some k -> loud (kind_of id) k = true) ->
+    fplan_wf kind_of t = true -> consistent answer root_answer kind_of t = true ->
+    forall l v, get_loc l (ls_data (run answer root_answer kind_of F t)) = Some v -> is_atom v = true ->
+    get_loc l (ls_data (run answer root_answer kind_of no_faults t)) = Some v.
+Proof. exact no_corruption_proof. Qed.
+Print Assumptions c07_unaffected_identical.
+
+(* requests_subset, as stated in the property, is false of the loader: a nullable @requires field
+   whose provider failed (any non-transport failure) is sent as null to the dependent subgraph *)
+Theorem c07_requests_subset_refuted :
+  exists answer root_answer kind_of t F,
+    forallb (fetch_wf kind_of) (fetches_of t) = true /\
+    (forall id k, F id = Some k -> loud (kind_of id) k = true) /\
+    requests_subset_b (ls_reqs (run answer root_answer kind_of no_faults t)) (ls_reqs (run answer root_answer kind_of F t)) = false.
+Proof. exact requests_subset_refuted_proof. Qed.
+Print Assumptions c07_requests_subset_refuted.
+
+(* ... and true when representation fields are non-null ([fplan_wf]): every request sent under the
+   faults is covered by a fault-free request of the same fetch (same datasource and operation text,
+   representations a subset) *)
+Theorem c07_requests_subset_partial :
+  forall (answer : N -> bytes -> json * list json) (root_answer : N -> json * list json) (kind_of : N -> fkind)
+         (F : N -> option fault) (t : ftree),
+    (forall id k, F id = Some k -> loud (kind_of id) k = true) ->
+    fplan_wf kind_of t = true -> consistent answer root_answer kind_of t = true ->
+    requests_subset_b (ls_reqs (run answer root_answer kind_of no_faults t)) (ls_reqs (run answer root_answer kind_of F t)) = true.
+Proof. exact requests_subset_partial_proof. Qed.
+Print Assumptions c07_requests_subset_partial.
+
+(* errors_nonempty, over the property's whole list of kinds, is false: a single-entity fetch
+   answered with `_entities: []` ("wrong entity count") is taken for "entity not found" *)
+Theorem c07_errors_nonempty_refuted :
+  exists answer root_answer kind_of t root F,
+    forallb (fetch_wf kind_of) (fetches_of t) = true /\ root_wf root = true /\
+    (exists rq, In rq (ls_reqs (run answer root_answer kind_of no_faults t)) /\ F (rq_fetch rq) = Some FtCountLess) /\
+    let o := finish root (run answer root_answer kind_of F t) in
+    o_failed o = false /\ o_lerrors o = [] /\ r_errors (o_resolved o) = [].
+Proof. exact errors_nonempty_refuted_proof. Qed.
+Print Assumptions c07_errors_nonempty_refuted.
+
+(* ... and true for the loud kinds: if some request of the fault-free run is faulted, the response
+   carries at least one (loader) error *)
+Theorem c07_errors_nonempty_partial :
+  forall (answer : N -> bytes -> json * list json) (root_answer : N -> json * list json) (kind_of : N -> fkind)
+         (F : N -> option fault) (t : ftree),
+    (forall id k, F id = Some k -> loud (kind_of id) k = true) ->
+    forallb (fetch_wf kind_of) (fetches_of t) = true ->
+    (exists rq, In rq (ls_reqs (run answer root_answer kind_of no_faults t)) /\ F (rq_fetch rq) <> None) ->
+    ls_errors (run answer root_answer kind_of F t) <> [].
+Proof. exact errors_nonempty_partial_proof'. Qed.
+Print Assumptions c07_errors_nonempty_partial.
+
+(* valid_json (corollary of C02.resolve_refines_complete): whatever the loader state, the data member
+   of the response is the marshalling of the C02 completion of the merged data (or `null`), the
+   renderer neither panics nor reports a print error *)
+Theorem c07_valid_json :
+  forall (root : node) (s : lstate),
+    root_wf root = true ->
+    let o := finish root s in
+    r_data (o_resolved o) = data_bytes (fst (complete_root no_deny root (ls_data s))) /\
+    r_panic (o_resolved o) = false /\ r_render_err (o_resolved o) = false.
+Proof. exact valid_json_proof. Qed.
+Print Assumptions c07_valid_json.
+
+(* ... but a marshalled tree is RFC 8259 text only if its number tokens are: a subgraph body with
+   `NaN` (which astjson parses as a number) is rendered verbatim *)
+Theorem c07_valid_json_refuted :
+  exists root_answer t root F,
+    root_wf root = true /\
+    let o := finish root (run (fun _ _ => (JNull, [])) root_answer (fun _ => FSingle) F t) in
+    o_failed o = false /\ o_lerrors o = [] /\ r_errors (o_resolved o) = [] /\
+    r_data (o_resolved o) = [123; 34; 100; 34; 58; 78; 97; 78; 125].
+Proof. exact valid_json_refuted_proof. Qed.
+Print Assumptions c07_valid_json_refuted.
+
+(* "still returns one well-formed response" is false of the loader even without an injected fault:
+   two independent entity fetches at the same object select the same object field, one subgraph
+   answers it with null (and an error), the other with an object; MergeValues(null, object) is
+   ErrMergeDifferentTypes, so if the null is merged first the request fails as a whole (nothing is
+   written), in the other order it succeeds -- inside a Parallel group the order is the schedule's.
+   Replayed on the Go code: harness/bin/c07 probe-null-object. *)
+Theorem c07_response_merge_order_refuted :
+  exists answer root_answer kind_of t1 t2 root,
+    root_wf root = true /    fetches_of t1 = [p4_f0; p4_f1; p4_f2] /\ fetches_of t2 = [p4_f0; p4_f2; p4_f1] /    o_failed (finish root (run answer root_answer kind_of no_faults t1)) = true /    let o := finish root (run answer root_answer kind_of no_faults t2) in
+    o_failed o = false /\ List.map le_kind (o_lerrors o) = [LE_FETCH] /    r_data (o_resolved o) = bs "{""a"":{""p"":{""x"":null,""y"":""why""}}}".
+Proof. exact merge_order_refuted_proof. Qed.
+Print Assumptions c07_response_merge_order_refuted.
+
+(* ---- non-vacuity: plan 1 of ProofsExamples (root fetch, entity fetch, de-duplicating batch fetch
+   in a Sequence/Parallel tree) satisfies every hypothesis, with a loud fault that changes the data ---- *)
+Example c07_hypotheses_satisfiable :
+  fplan_wf p1_kind p1_tree = true /\ consistent p1_answer p1_root_answer p1_kind p1_tree = true /\
+  loud (p1_kind 2) FtTransport = true /\
+  ls_data (p1_run (fault_at 2 FtTransport)) <> ls_data (p1_run no_faults).
+Proof. vm_compute. repeat split. discriminate. Qed.
